@@ -98,7 +98,7 @@ fn o_sock_matches(s: &Scn, k: &SockSpec, rx: &Rx) -> bool {
                 match u {
                     Upper::Tcp { .. } => 6,
                     Upper::Udp { .. } => 17,
-                    Upper::EchoReq { .. } | Upper::EchoRep { .. } | Upper::IcmpErr { .. } => {
+                    Upper::EchoReq { .. } | Upper::EchoRep { .. } | Upper::IcmpErr { .. } | Upper::Ns { .. } | Upper::Na { .. } => {
                         if v4 {
                             1
                         } else {
@@ -251,6 +251,12 @@ fn oracle_scn(id: &str, s: &Scn, fails: &mut Vec<String>, stats: &mut BTreeMap<S
                         let mut extra = misbound.clone();
                         if s.anyip && !o_is_mcast(&rx.dst) && !o_is_bcast(s, &rx.dst) && !o_is_unspec(&rx.dst) {
                             extra.push(rx.dst);
+                        }
+                        // ... and advertises any unicast target it is solicited for (proxy)
+                        if let Upper::Ns { tgt, .. } = &rx.upper {
+                            if s.anyip && !o_is_mcast(tgt) && !o_is_unspec(tgt) {
+                                extra.push(*tgt);
+                            }
                         }
                         for e in o.frames.iter().chain(o.later_frames.iter()) {
                             o_validate(s, e, &extra, "reply", &mut fail, stats);
